@@ -660,7 +660,13 @@ class Interp:
         return d
 
     def dict_contains(self, d, k):
-        return self.dict_has(d)[1][d.ref][self.coerce_term(k, d.kty)]
+        has = self.dict_has(d)[1][d.ref][self.coerce_term(k, d.kty)]
+        if isinstance(k, SV) and isinstance(k.ty, TOpt) and not isinstance(d.kty, TOpt):
+            # None is never a key of a dict whose declared key type is not Optional
+            return z3.And(z3.Not(self.opt_is_none(k)), has)
+        if k is None and not isinstance(d.kty, TOpt):
+            return z3.BoolVal(False)
+        return has
 
     def dict_load(self, d, k):
         _, va = self.dict_val(d)
@@ -900,6 +906,8 @@ class InterpExpr:
                     return self.module_name(sm, name)
         if name in self.ct.classes and modname.startswith('contracts'):
             return ClassV(name)
+        if modname.startswith('contracts') and name in getattr(self.ts.shapes, 'EXTERNAL_TYPES', {}):
+            return ClassV(name)      # external class declared in shapes (quantification over its allocated objects)
         if modname.startswith('contracts'):
             # contract files may name enums / constants of any repo module without importing them
             for mn, m2 in self.ct.modules.items():
